@@ -6,3 +6,10 @@ import PytezosModel.Props.C33
 #print axioms C33.resolve_no_refs
 #print axioms C33.resolve_unknown
 #print axioms C33.reference_leniency
+#print axioms C33.expr_row_ok
+#print axioms C33.key_source
+#print axioms C33.register_key_text
+#print axioms C33.register_key_forge_error
+#print axioms C33.register_then_lookup
+#print axioms C33.register_key_concrete
+#print axioms C33.register_key_steps
